@@ -7,6 +7,14 @@ void GMGPolar::solve()
     LIKWID_START("Solve");
     auto start_solve = std::chrono::high_resolution_clock::now();
 
+    /* The iteration history and the statistics describe this solve only. */
+    residual_norms_.clear();
+    exact_errors_.clear();
+    mean_residual_reduction_factor_ = 1.0;
+    /* The combined extrapolation mode starts every solve with full grid smoothing, as setup() prescribes. */
+    if (extrapolation_ == ExtrapolationType::COMBINED)
+        full_grid_smoothing_ = true;
+
     /* ---------------------------- */
     /* Initialize starting solution */
     /* ---------------------------- */
